@@ -233,8 +233,8 @@ def instances(tier):
     out.append(I("interleave 2xK3", "make_interleave", (2, 3, 1), "2 streams x 3 samples, offsets 0..1: every FIFO-preserving delivery order (solver-chosen), engine allowed or not allowed to run "
                  "after each delivery, consumer subscribing after 0..6 deliveries", budget_s=240, validate_every=200))
     if tier != "quick":
-        out.append(I("interleave 3xK2", "make_interleave", (3, 2, 1), "3 streams x 2 samples, offsets 0..1, every delivery order / yield pattern / subscription point", budget_s=600, validate_every=500))
-        out.append(I("interleave 2xK4", "make_interleave", (2, 4, 2), "2 streams x 4 samples, offsets 0..2, every delivery order / yield pattern / subscription point", budget_s=900, validate_every=1000))
+        out.append(I("interleave 3xK2", "make_interleave", (3, 2, 1), "3 streams x 2 samples, offsets 0..1, every delivery order / yield pattern / subscription point (budgeted)", budget_s=150, exhaustive=False, validate_every=500))
+        out.append(I("interleave 2xK4", "make_interleave", (2, 4, 2), "2 streams x 4 samples, offsets 0..2, every delivery order / yield pattern / subscription point (budgeted)", budget_s=150, exhaustive=False, validate_every=1000))
         out.append(I("3 streams K5 o3", "make", (3, 5, 3), "3 streams, 5 samples, offsets 0..3", budget_s=600, validate_every=100))
         out.append(I("4 streams K5", "make", (4, 5, 2), "4 streams, 5 samples, offsets 0..2", budget_s=900, validate_every=200))
     return out
